@@ -11,7 +11,7 @@ from kawin.precipitation import PrecipitateModel
 from kawin.precipitation.PrecipitationParameters import PrecipitationData
 from kawin.precipitation.parameters.Volume import VolumeParameter
 from kawin.solver.Solver import SolverType
-from .fakes import FakeBinaryTherm, FaultPlan
+from .fakes import FakeBinaryTherm, FakeMultiTherm, FaultPlan
 
 ATTRS = PrecipitationData.ATTRIBUTES
 
@@ -66,9 +66,15 @@ def build(cfg):
     ph = cfg["phases"]
     names = [p["name"] for p in ph]
     per = {p["name"]: {k: p[k] for k in ("K", "xe0", "se", "xb", "xlim") if k in p} for p in ph}
-    th = FakeBinaryTherm(K=cfg.get("K", 1e5), xe0=cfg.get("xe0", 0.005), se=cfg.get("se", 0.0), T0=cfg.get("T0", 1000.0),
-                         xb=cfg.get("xb", 0.25), xlim=cfg.get("xlim", 0.3), D=cfg.get("D", 1e-17), per_phase=per,
-                         faults=FaultPlan(cfg.get("faults")))
+    multi = bool(cfg.get("multi"))
+    if multi:
+        perm = {p["name"]: {k: p[k] for k in ("K", "xe0", "se", "xb", "w", "mc", "dc", "beta") if k in p} for p in ph}
+        th = FakeMultiTherm(mc=cfg.get("mc", 3e-21), se=cfg.get("se2", (0.0, 0.0)), per_phase=perm, faults=FaultPlan(cfg.get("faults")))
+    else:
+        th = FakeBinaryTherm(K=cfg.get("K", 1e5), xe0=cfg.get("xe0", 0.005), se=cfg.get("se", 0.0), T0=cfg.get("T0", 1000.0),
+                             xb=cfg.get("xb", 0.25), xlim=cfg.get("xlim", 0.3), D=cfg.get("D", 1e-17), per_phase=per,
+                             faults=FaultPlan(cfg.get("faults")))
+    els = ["B", "C"] if multi else ["B"]
     temp = cfg.get("temp", ("const", 1000))
     if temp[0] == "const":
         targs = (temp[1],)
@@ -82,14 +88,14 @@ def build(cfg):
         import io, contextlib
         with contextlib.redirect_stdout(io.StringIO()):
             tp = TemperatureParameters(*targs)
-        m = PrecipitateModel(phases=names, elements=["B"], temperatureParameters=tp)
+        m = PrecipitateModel(phases=names, elements=els, temperatureParameters=tp)
     else:
-        m = PrecipitateModel(phases=names, elements=["B"])
+        m = PrecipitateModel(phases=names, elements=els)
         import io, contextlib
         with contextlib.redirect_stdout(io.StringIO()):
             m.setTemperature(*targs)
     m.setThermodynamics(th)
-    m.setInitialComposition(cfg.get("x0", 0.02))
+    m.setInitialComposition(np.array(cfg.get("x0", [0.02, 0.015])) if multi else cfg.get("x0", 0.02))
     m.setVolumeAlpha(cfg.get("VmA", 1e-5), VolumeParameter.MOLAR_VOLUME, 4)
     for p in ph:
         m.setInterfacialEnergy(p.get("gamma", 0.05), p["name"])
@@ -139,7 +145,7 @@ def run(cfg):
                 m.setTemperature(cfg["retemp"][ci])
             if first:
                 m.setup()      # idempotent public call; table builds made here belong to row 0, not to the first step
-                out["lookups0"] = len(th.lookupT)
+                out["lookups0"] = len(getattr(th, "lookupT", []))
                 out["bins0"] = [int(p.bins) for p in m.PBM]
             if first and cfg.get("load"):
                 ld = cfg["load"]
@@ -268,14 +274,16 @@ def project(cfg, res):
             g = s["growth"][p]
             rc = float(row["Rcrit"][p])
             clamped = bool(rc <= m.precipitateParameters[p].Rmin * (1 + 1e-12)) or row["drivingForce"][p] <= 0
-            sg = []
+            sg, sgw = [], []
             if not clamped and len(g) == len(s["bounds"][p]):
                 for bi, (R, gi) in enumerate(zip(s["bounds"][p], g)):
                     if bi <= s["rdf"][p]:
                         continue      # radii at which the precipitate is reported unstable are outside the law's range
                     rel = cmp3(float(R), rc, rtol=1e-6)
                     sg.append([rel, int(np.sign(gi))])
+                    sgw.append([cmp3(float(R), rc, rtol=0.1), int(np.sign(gi))])      # classes within 10 % of Rcrit count as "at" it
             q["gsign"] = [list(t) for t in sorted(set((a, b) for a, b in sg))]
+            q["gsignw"] = [list(t) for t in sorted(set((a, b) for a, b in sgw))]
             q["rdf"] = s["rdf"][p]
             ph.append(q)
             sumfv += vf
